@@ -214,6 +214,13 @@ def check_hashseeds(case, ev):
             if a != b:
                 ev.bulk(len(cases), len(cases))
                 return Finding("hashseed/output-differs:%s" % ("overlapping-list" if overlapping(c["words"]) else "plain-list"), "words=%r lines=%r: %r with PYTHONHASHSEED=%s vs %r with 0" % (c["words"], c["lines"], b, hs, a), {"cases": [c], "seeds": [0, hs]})
+    # the same batch in reverse order in another fresh interpreter: a pseudonym is a function of
+    # (salt, matched text) only, so the order in which anonymizers are created cannot matter
+    rev = core.run_worker("c10", "worker_run", cases[::-1], 0)[::-1]
+    for c, a, b in zip(cases, ref, rev):
+        if a != b:
+            ev.bulk(len(cases), len(cases))
+            return Finding("hashseed/output-depends-on-order-of-anonymizers-in-the-process", "words=%r salt=%r lines=%r: %r when the batch runs forwards, %r backwards" % (c["words"], c["salt"], c["lines"], a, b), {"cases": cases, "seeds": [0]})
     ev.bulk(len(cases), sum(1 for c in cases if overlapping(c["words"])), sample=cases[0] if cases else None, classes={"overlapping-list": sum(1 for c in cases if overlapping(c["words"]))})
     return None
 
